@@ -55,6 +55,17 @@ func stdRedirects() map[string]string {
 		"github.com/FollowTheProcess/msg.Error":    s + "MsgError",
 
 		"github.com/lithammer/fuzzysearch/fuzzy.RankFindNormalizedFold": s + "FuzzyRank",
+
+		"mvdan.cc/sh/v3/interp.Env":             s + "InterpEnv",
+		"mvdan.cc/sh/v3/interp.StdIO":           s + "InterpStdIO",
+		"mvdan.cc/sh/v3/interp.Params":          s + "InterpParams",
+		"mvdan.cc/sh/v3/interp.Dir":             s + "InterpDir",
+		"mvdan.cc/sh/v3/interp.ExecHandlers":    s + "InterpExecHandlers",
+		"mvdan.cc/sh/v3/interp.OpenHandler":     s + "InterpOpenHandler",
+		"mvdan.cc/sh/v3/interp.New":             s + "InterpNew",
+		"(*mvdan.cc/sh/v3/interp.Runner).Run":   s + "RunnerRun",
+		"mvdan.cc/sh/v3/syntax.NewParser":       s + "SyntaxNewParser",
+		"(*mvdan.cc/sh/v3/syntax.Parser).Parse": s + "ParserParse",
 	}
 }
 
